@@ -1097,6 +1097,14 @@ def numnorm(t):
         tgt = t[1][1][1].split(" for ")[-1].split(">")[0]
         if tgt in ("u8", "u16", "u32", "u64", "usize"):
             return ("cast", "IntToInt", numnorm(t[1][1][2][0]), tgt)
+    if k == "field" and t[2] == 0 and t[1][0] == "downcast" and t[1][2] == 1 and is_call(strip(t[1][1])):
+        # the Some payload of `opt.filter(pred)` is opt's own payload (filter only decides whether
+        # there is one), and the Some payload of `res.ok()` is res's Ok payload
+        o_ = strip(t[1][1])
+        if o_[1] == "std::option::Option::<T>::filter" and len(o_[2]) == 2:
+            return numnorm(("field", ("downcast", strip(o_[2][0]), 1), 0))
+        if o_[1] == "std::result::Result::<T, E>::ok" and len(o_[2]) == 1:
+            return numnorm(("field", ("downcast", strip(o_[2][0]), 0), 0))
     if k == "field":
         return ("field", numnorm(t[1])) + t[2:]
     return t
